@@ -235,6 +235,9 @@ func (e *Engine) verifyContract(ct *Contract) (x *Exec, err error) {
 	x.specDepth++
 	var reqs []Term
 	for _, cl := range ct.Req {
+		if !x.inScope(cl) {
+			continue // written against a caller's parameters: a call-site obligation only
+		}
 		g := x.evalBool(cl.Expr, env, TTrue)
 		reqs = append(reqs, g)
 		x.c.Assume(g)
